@@ -684,6 +684,9 @@ class FnLower:
         self.stmt(body[0], toplevel=True)
         if f.kind == 'CXXDestructorDecl':
             self.dtor_epilogue()
+            if f.record.tag.startswith(('stmp', 'htmp')):
+                self.w('env_untrack_temp();')      # r9b
+                self.rule('r9b')
         hdr = []
         proto = self.em.prototype(f)
         text = []
